@@ -182,7 +182,7 @@ class C13(Check):
                         sub = p_
                     elif c.startswith("any("):
                         sub = "any"
-                stores = [(e[1], e[2]) for e in stp.events if e[0] == "store"]
+                stores = stp.stores()
                 static_t = [v_ for k_, v_ in stores if k_.startswith(f"stoich_by_compounds.setdefault({cpd}, {{}})[") or k_.startswith(f"stoich_by_compounds[{cpd}][")]
                 dyn_t = [v_ for k_, v_ in stores if k_.startswith(f"dyn_stoich_by_compounds.setdefault({cpd}, {{}})[") or k_.startswith(f"dyn_stoich_by_compounds[{cpd}][")]
                 if is_der and is_der[-1]:
